@@ -526,3 +526,45 @@ def c11_g(ctx):
     ok = bool(pn) and ex.term(pn[0].value) == ('param', 'parameter_names')
     ctx.check(ok, init, 'same name list stored', 'self.parameter_names = parameter_names', '',
               fn=init, node=pn[0] if pn else init.node)
+
+
+def check_column_helpers(ctx):
+    """arr2d_to_batch / batch_to_arr2d: column i <-> names[i] (shared by C07, C11, C20)."""
+    a2b = ctx.fn('elfi.methods.utils:arr2d_to_batch')
+    b2a = ctx.fn('elfi.methods.utils:batch_to_arr2d')
+    exa = ctx.ex(a2b)
+    rr = returns(a2b)
+    ok = False
+    if rr:
+        t = exa.term(rr[-1].value)
+        if t[0] == 'comp' and t[1] == 'dict' and \
+                match(t[3][0][0], pattern('enumerate(names)')) is not None:
+            k, v = t[2][1]
+            ok = k[0] == 'item' and k[2] == 1 and v[0] == 'sub' and v[2][0] == 'tuple' and \
+                len(v[2][1]) == 2 and v[2][1][1] == ('item', k[1], 0) and \
+                v[2][1][0] == ('slice', ('const', None), ('const', None), ('const', None)) and \
+                match(v[1], pattern('x.reshape((-1, len(names)))')) is not None
+    ctx.check(ok, a2b, 'column i named names[i]',
+              '{p: x[:, i] for i, p in enumerate(names)} on x reshaped (-1, len(names))',
+              'arr2d_to_batch does not give column i the name names[i]', fn=a2b,
+              node=rr[-1] if rr else a2b.node)
+    exb = ctx.ex(b2a)
+    cs = [c for c in ctx.calls(b2a, 'np.column_stack(_)')]
+    ok = False
+    for c in cs:
+        t = exb.term(c.args[0])
+        if t[0] == 'comp' and t[1] == 'list' and t[3][0][0] == ('param', 'names') and \
+                not t[3][0][1] and t[2][0] == 'sub' and t[2][2][0] == 'elem' and \
+                t[2][2][1] == ('param', 'names'):
+            ok = True
+    ctx.check(ok, b2a, 'columns stacked in names order',
+              'column_stack([batch[n] for n in names])',
+              'batch_to_arr2d does not stack the outputs in the order of names', fn=b2a,
+              node=cs[0] if cs else b2a.node)
+
+
+@obligation('C11-h', 'T7', 'array <-> batch conversions pair column i with names[i]', floor=2,
+            necessary='another pairing simulates one parameter at another parameter\'s value '
+                      'and trains the surrogate on mislabelled columns')
+def c11_h(ctx):
+    check_column_helpers(ctx)
